@@ -27,22 +27,24 @@ inductive Clause
 
 def mysqlMax : Nat := 18446744073709551615
 
-/-- the clause Pony writes for a combined (limit, offset): construct_sql_ast drops a zero offset (`if offset:`), spells a missing
-    limit per dialect; OraBuilder.SELECT (with LIMIT 0 restricting to no row) -/
+/-- the clause Pony writes for a combined (limit, offset): construct_sql_ast spells a missing limit per dialect; OraBuilder.SELECT (with LIMIT 0 restricting to no row) -/
 def limitClause (d : WDialect) (lo : Option Nat × Option Nat) : Clause :=
-  let off : Option Nat := match lo.2 with
-    | some 0 => none
-    | x => x
-  match lo.1, off with
+  match lo.1, lo.2 with
   | none, none => .absent
-  | l, o =>
+  | l, o0 =>
+    -- a LIMIT section is written as soon as limit or offset is not None (an offset of 0 included: `LIMIT -1` / `LIMIT null`);
+    -- the OFFSET part only for a non-zero offset (`if offset:`)
+    let o : Option Nat := match o0 with
+      | some 0 => none
+      | x => x
     match d with
     | .sqlite => .limit (some (match l with | some n => (n : Int) | none => -1)) o
     | .mysql => .limit (some ((l.getD mysqlMax : Nat) : Int)) o
     | .pg => .limit (l.map Int.ofNat) o
     | .oracle =>
       match l, o with
-      | none, o => .rownum none o
+      | none, none => .absent
+      | none, some k => .rownum none (some k)
       | some n, none => .rownum (some n) none
       | some n, some k => if n = 0 then .rownum (some 0) none else .rownum (some (n + k)) (some k)
 
